@@ -2,4 +2,4 @@ From Coq Require Import Extraction ExtrOcamlBasic NArith.
 From DV Require Import Base.Outcome C06.Gen C06.Model C06.Svc.
 From DV Require C18.Model.
 Extraction Language OCaml.
-Extraction "../build/ml/C06/model.ml" c06_show_label c06_show_cstr c06_show_name c06_render c06_rdname c06_owner c06_txt show_record read_record generic_ops read_generic_record c06_rec c06_hinfo c06_nstext c06_uint c06_ts c06_ip6show c06_ip6read c06_svcshow c06_svcread DV.C18.Model.b16_display DV.C18.Model.b64_display DV.C18.Model.b32_display.
+Extraction "../build/ml/C06/model.ml" c06_show_label c06_show_cstr c06_show_name c06_render c06_rdname c06_owner c06_txt show_record read_record generic_ops read_generic_record c06_rec c06_hinfo c06_nstext c06_uint c06_ts c06_ip6show c06_ip6read c06_svcshow c06_svcread c06_n3len DV.C18.Model.b16_display DV.C18.Model.b64_display DV.C18.Model.b32_display.
